@@ -75,7 +75,12 @@ func body(c cfg) func() {
 			pool = taskpool.New(3, 1)
 			g.Execute = pool.Go
 		}
-		g.OnClose(func(*nbio.Conn, error) {})
+		// close handling is routed through the job queue, as nbhttp does (engine.go OnClose ->
+		// MustExecute): it must run after every job that Execute accepted
+		closeJobAt := 0
+		g.OnClose(func(cc *nbio.Conn, _ error) {
+			cc.MustExecute(func() { closeJobAt = w.tick() })
+		})
 		nbio.VerifBareEngine(g, vsys.FDLimit)
 		fd, _ := vsys.NewStreamPair(false, 64, 64)
 		conn := nbio.VerifBareConn(g, fd, nbio.ConnTypeTCP)
@@ -146,6 +151,16 @@ func body(c cfg) func() {
 			}
 			if len(j.starts) > 0 {
 				ran++
+			}
+		}
+		if c.closer {
+			if closeJobAt == 0 {
+				w.fails = append(w.fails, "close-job-lost|the close handler submitted through MustExecute never ran")
+			}
+			for _, j := range w.jobs {
+				if !j.must && j.accepted && len(j.starts) > 0 && closeJobAt != 0 && j.starts[0] > closeJobAt {
+					w.fails = append(w.fails, fmt.Sprintf("ran-after-close-handler|job %s was accepted by Execute but ran after the close handler (it was queued on a connection that was already closed)", j.id))
+				}
 			}
 		}
 		// order: same submitter; and real-time precedence between submitters
